@@ -17,18 +17,23 @@ RULE = (
     "is the same for normalize_blocks_with_unitary_timing(c) as for c; the output body is flat (each element a "
     "gate, a parallel group of gates, a loop, or a subcircuit-annotated container whose inside is flat); "
     "constants, registers, macros, native gates, pulse imports and subcircuit annotations/counts equal the "
-    "input's.  Negative cases: a loop placed somewhere under a parallel block must raise JaqalError.  Non-trivial = "
+    "input's.  One case in four is built from its S-expression through circuitbuilder.build instead of parsed.  "
+    "Negative cases: a loop placed somewhere under a parallel block - in builder-made cases also as a branch of the "
+    "parallel block itself, which the text grammar cannot write - must raise JaqalError.  Non-trivial = "
     "depth >= 3 with two parallel branches of different length. distinct = program text."
 )
 ASSUMPTIONS = ["macro calls are atoms for this pass (its docstring: 'does not expand loops, macros, lets, or maps')"]
 
 
-def _gen_items(ch, ctx, depth, tag, allow_loop, in_sub, under_par, bad):
-    """ctx in top/seq/par."""
+def _gen_items(ch, ctx, depth, tag, allow_loop, in_sub, under_par, bad, direct=False):
+    """ctx in top/seq/par.  direct: a loop may be a branch of a parallel block itself (the text
+    grammar has no such branch; the builder API accepts it)."""
     out = []
     for _ in range(ch.int(0, 4)):
         kinds = ["gate", "gate"]
         if depth > 0:
+            if ctx == "par" and direct and bad:
+                kinds.append("loop")
             if ctx in ("top", "seq"):
                 kinds += ["par", "par"]
                 if allow_loop:
@@ -45,14 +50,14 @@ def _gen_items(ch, ctx, depth, tag, allow_loop, in_sub, under_par, bad):
             t = tag[0] if ch.int(0, 4) else ch.int(1, max(1, tag[0]))
             out.append(["g", ch.pick(["g", "h", "g", "h", "I_g", "I_h"]) if t == tag[0] else "g", [["n", t]]])
         elif k == "par":
-            out.append(["par", _gen_items(ch, "par", depth - 1, tag, allow_loop and bad, in_sub, True, bad)])
+            out.append(["par", _gen_items(ch, "par", depth - 1, tag, allow_loop and bad, in_sub, True, bad, direct)])
         elif k == "seq":
-            out.append(["seq", _gen_items(ch, "seq", depth - 1, tag, allow_loop and (not under_par or bad), in_sub, under_par, bad)])
+            out.append(["seq", _gen_items(ch, "seq", depth - 1, tag, allow_loop and (not under_par or bad), in_sub, under_par, bad, direct)])
         elif k == "loop":
             body_kind = ch.pick(["seq", "seq", "par"])
             out.append(["loop", ch.int(0, 3), [body_kind, _gen_items(ch, body_kind, min(depth - 1, 2), tag, not under_par and body_kind == "seq", in_sub, under_par or body_kind == "par", False)]])
         elif k == "sub":
-            out.append(["sub", ch.pick([None, None, 2, 7]), _gen_items(ch, "seq", depth - 1, tag, allow_loop, True, under_par, bad)])
+            out.append(["sub", ch.pick([None, None, 2, 7]), _gen_items(ch, "seq", depth - 1, tag, allow_loop, True, under_par, bad, direct)])
     return out
 
 
@@ -79,10 +84,13 @@ def _case(ch):
     prog = empty_prog()
     b.header(prog)
     bad = ch.int(0, 5) == 0
-    prog["body"] = _gen_items(ch, "top", 6 if ch.bool() else 3, [0], True, False, False, bad)
+    # one case in four is built from its S-expression through circuitbuilder.build instead of from
+    # text; there a loop may also sit DIRECTLY in a parallel block (negative cases only)
+    via = "builder" if ch.int(0, 3) == 0 else "text"
+    prog["body"] = _gen_items(ch, "top", 6 if ch.bool() else 3, [0], True, False, False, bad, via == "builder")
     # with a native gate set the I_ gates are real IdleGateDefinition instances (they take a time
     # step like any gate), without one they are anonymous gates that merely have such names
-    return {"prog": prog, "native": ch.bool()}
+    return {"prog": prog, "native": ch.bool(), "via": via}
 
 
 def _natives():
@@ -198,7 +206,13 @@ def check(case):
     prog = case["prog"]
     text = render.to_text(prog)
     kw = {"inject_pulses": _natives()} if case.get("native") else {}
-    st_, c = guard(parse, text, what="parse", **kw)
+    if case.get("via") == "builder":
+        from jaqalpaq.core.circuitbuilder import build
+
+        text = "(built from the S-expression of)\n" + text
+        st_, c = guard(build, render.to_sexpr(prog), what="build(sexpr)", **kw)
+    else:
+        st_, c = guard(parse, text, what="parse", **kw)
     if st_ == "err":
         raise Skip()
     negative = _has_loop_under_par(prog["body"])
@@ -206,7 +220,8 @@ def check(case):
     if negative:
         if st_ == "ok":
             raise Violation("loop-under-parallel-accepted", f"--- program:\n{text}")
-        return {"nontrivial": True, "classes": ["negative:loop-under-parallel"], "key": text, "sample": {"text": text, "expected": "JaqalError"}}
+        classes = ["negative:loop-under-parallel"] + (["negative:loop-is-a-parallel-branch"] if _loop_is_branch(prog["body"]) else [])
+        return {"nontrivial": True, "classes": classes, "key": text, "sample": {"text": text, "expected": "JaqalError"}}
     if st_ == "err":
         raise Violation("rejected-valid-program", f"{r}\n--- program:\n{text}")
     t_in = _tree_of_model(prog["body"])
@@ -233,8 +248,19 @@ def check(case):
 
     d = depth_of(prog["body"])
     uneven = _uneven(prog["body"])
-    classes = ["depth:%d" % min(d, 6)] + (["native-idle-definitions"] if case.get("native") else []) + (["uneven-branches"] if uneven else []) + (["subcircuit"] if _sub_annotations(t_in) else []) + (["loops"] if l_in else [])
+    classes = ["depth:%d" % min(d, 6), "via:" + case.get("via", "text")] + (["native-idle-definitions"] if case.get("native") else []) + (["uneven-branches"] if uneven else []) + (["subcircuit"] if _sub_annotations(t_in) else []) + (["loops"] if l_in else [])
     return {"nontrivial": d >= 3 and uneven, "classes": classes, "key": text, "sample": {"text": text}}
+
+
+def _loop_is_branch(stmts, in_par=False):
+    for s in stmts:
+        if s[0] == "loop" and in_par:
+            return True
+        if s[0] in ("seq", "par") and _loop_is_branch(s[1], s[0] == "par"):
+            return True
+        if s[0] == "sub" and _loop_is_branch(s[2]):
+            return True
+    return False
 
 
 def _uneven(stmts):
